@@ -239,6 +239,8 @@ impl fmt::Debug for IoData {
 
 impl Drop for IoData {
     fn drop(&mut self) {
+        #[cfg(may_verif)]
+        crate::verif::pt("iod.del", self.fd as usize, 0, 0);
         del_socket(self);
     }
 }
